@@ -21,14 +21,15 @@ import (
 
 // Impl runs protocol operations against the real implementation built from /repo.
 type Impl struct {
-	backend string // bbolt | badger-mem | badger-disk
-	root    string // scratch root (removed by the caller)
-	dir     string
-	n       int
-	xs      *XStore
-	db      *clover.DB
-	files   map[string]string // export name -> path
-	stuck   bool              // an operation timed out: the handle is unusable
+	backend        string // bbolt | badger-mem | badger-disk
+	root           string // scratch root (removed by the caller)
+	dir            string
+	n              int
+	xs             *XStore
+	db             *clover.DB
+	files          map[string]string // export name -> path
+	stuck          bool              // an operation timed out: the handle is unusable
+	postInterloper func()            // runs after an interloper operation, still before the write transaction opens
 }
 
 func openStore(backend, dir string) (store.Store, error) {
@@ -204,6 +205,29 @@ func (im *Impl) execGuarded(op J, faultAt int, tracing bool) (res ExecResult) {
 		res.TxN = im.xs.txBegun
 		res.MutUnderCursor = im.xs.mutUnderCursor
 	}()
+	if il, ok := op["interloper"]; ok && il != nil {
+		// another client's operation, committed right before this operation opens its write transaction (or, when it
+		// opens none, right after it returns): the outcome must be that of the two operations one after the other
+		ilOp := J(il.(map[string]interface{}))
+		im.xs.mu.Lock()
+		im.xs.onWriteBegin = func() {
+			var r ExecResult
+			im.exec(ilOp, &r)
+			if im.postInterloper != nil {
+				im.postInterloper()
+			}
+		}
+		im.xs.mu.Unlock()
+		defer func() {
+			im.xs.mu.Lock()
+			h := im.xs.onWriteBegin
+			im.xs.onWriteBegin = nil
+			im.xs.mu.Unlock()
+			if h != nil {
+				h()
+			}
+		}()
+	}
 	res.Line = im.exec(op, &res)
 	return
 }
@@ -376,10 +400,19 @@ func (im *Impl) exec(op J, res *ExecResult) string {
 	case "delete":
 		q := decQuery(op["q"])
 		fa, tr := im.xs.faultAt, im.xs.tracing
-		im.xs.StartOp(-1, false)
-		before, ferr := db.FindAll(q)
-		im.xs.StartOp(fa, tr)
-		err := db.Delete(q)
+		var before []*d.Document
+		var ferr, err error
+		if il, ok := op["interloper"]; ok && il != nil {
+			// the selection is observed after the interloper has committed, right before Delete opens its transaction
+			im.postInterloper = func() { before, ferr = db.FindAll(q) }
+			err = db.Delete(q)
+			im.postInterloper = nil
+		} else {
+			im.xs.StartOp(-1, false)
+			before, ferr = db.FindAll(q)
+			im.xs.StartOp(fa, tr)
+			err = db.Delete(q)
+		}
 		if err == nil && ferr != nil {
 			return "err other"
 		}
